@@ -50,7 +50,7 @@ var mapStringCameraModel = map[string]CameraModel{
 	"Canon IXY 200F":             PowerShotSD1300IS,
 	"Canon PowerShot A200":       PowerShotA200,
 	"Canon PowerShot A510":       PowerShotA510,
-	"Canon PowerShot A540":       PowerShotA450,
+	"Canon PowerShot A540":       PowerShotA540,
 	"Canon PowerShot A590 IS":    PowerShotA590IS,
 	"Canon PowerShot A75":        PowerShotA75,
 	"Canon PowerShot A80":        PowerShotA80,
@@ -102,7 +102,7 @@ var mapCameraModelString = map[CameraModel]string{
 	PowerShotSD1300IS: "Canon IXY 200F",
 	PowerShotA200:     "Canon PowerShot A200",
 	PowerShotA510:     "Canon PowerShot A510",
-	PowerShotA450:     "Canon PowerShot A540",
+	PowerShotA540:     "Canon PowerShot A540",
 	PowerShotA590IS:   "Canon PowerShot A590 IS",
 	PowerShotA75:      "Canon PowerShot A75",
 	PowerShotA80:      "Canon PowerShot A80",
